@@ -198,3 +198,14 @@ package keeper
 //@ loop 1 invariant [acks]     acksKept(old(xibc(ctx)), xibc(ctx))
 //@ ensures [receipts-kept] receiptsKept(old(xibc(ctx)), xibc(ctx))
 //@ ensures [acks-kept]     acksKept(old(xibc(ctx)), xibc(ctx))
+
+// ---- genesis export of packet state: every stored key is read back as the triple it was written for (C13, C19) ----
+// (commitments, receipts and acknowledgements share the path structure "<family>/<src>/<dst>/sequences/<seq>")
+
+// verif:func (Keeper).iterateHashes
+//@ loop 1 forkey s string, d string, q uint64 :: host.PacketCommitmentKey(s, d, q) requires noslash(s) && noslash(d)
+//@ loop 1 continue [parse-back] ncalls("cb") == 1 && callarg("cb", 0) == s && callarg("cb", 1) == d && callarg("cb", 2) == q
+
+// verif:func (Keeper).IteratePacketSequence
+//@ loop 1 forkey s string, d string :: host.NextSequenceSendKey(s, d) requires noslash(s) && noslash(d)
+//@ loop 1 continue [parse-back] ncalls("cb") == 1 && callarg("cb", 0) == s && callarg("cb", 1) == d
